@@ -160,6 +160,27 @@ def fields_in(t):
     return [strip_targs(n['f']) for n in walk(t) if n.get('k') == 'mem' and 'f' in n]
 
 
+_NAMES = [None]     # current alpha-renaming {var id: canonical name} used by _show (see canonical())
+
+
+class canonical:
+    """Context manager: inside it, locals and parameters of `func` are rendered by canonical names ($p0, $p1 ...
+    for parameters by position, $l0, $l1 ... for locals in declaration order), so that renderings of sibling
+    functions - or of one function before and after a renaming of its variables - compare equal."""
+
+    def __init__(self, func):
+        self.func = func
+
+    def __enter__(self):
+        self.prev = _NAMES[0]
+        _NAMES[0] = self.func.alpha_names() if self.func is not None else None
+        return self
+
+    def __exit__(self, *a):
+        _NAMES[0] = self.prev
+        return False
+
+
 def show(t, maxlen=160):
     """Readable rendering of a tree (for reports)."""
     s = _show(t)
@@ -177,6 +198,9 @@ def _show(t):
     if k == 'this':
         return 'this'
     if k == 'var':
+        nm = _NAMES[0]
+        if nm and t.get('id') in nm and t.get('vk') in ('local', 'param'):
+            return nm[t['id']]
         return t.get('n', '?')
     if k == 'mem':
         b = t.get('b')
@@ -358,6 +382,25 @@ class Func:
     @property
     def has_cfg(self):
         return bool(self.blocks)
+
+    def alpha_names(self):
+        """{var id: canonical name}: parameters by position, locals by order of declaration."""
+        out = {}
+        for i, p in enumerate(self.d.get('params', [])):
+            if 'id' in p:
+                out[p['id']] = '$p%d' % i
+        decls = []
+        for bid, blk in self.blocks.items():
+            for e in blk['ev']:
+                if e.get('k') == 'decl':
+                    for v in e.get('vars', []):
+                        decls.append(((e.get('ln') or 0), v['id']))
+        k = 0
+        for ln, vid in sorted(decls):
+            if vid not in out:
+                out[vid] = '$l%d' % k
+                k += 1
+        return out
 
     @property
     def where(self):
